@@ -600,6 +600,15 @@ func init() {
 			if _, ok := nativeOf[*fhandle](d.r); ok {
 				return externals["(*os.File).Write"](fr, []value{d.r.(iface).v, doc}).(tuple)[1]
 			}
+			// an ordinary interpreted writer (pipe, response writer): its real
+			// Write gets the document as one element
+			if wr, ok := d.r.(iface); ok && wr.t != nil {
+				res, ok := i.callMethod(wr, "Write", doc)
+				if !ok {
+					panic(engineError{"json.Encoder: the writer has no Write method"})
+				}
+				return res.(tuple)[1]
+			}
 			panic(engineError{"json.Encoder over an unmodelled writer"})
 		},
 		"(*encoding/json.Encoder).SetIndent": nop,
